@@ -334,3 +334,151 @@ class CliStatementMixin(cm.CliMixin):
                         break
             return None if o is None else "command line %s: %s" % (cm.describe(case), o)
         return super().oracle(case, impl_out)
+
+
+# ------------------------------------------------------------------------------------------------
+# the second argument of the inference function: a MaxQuant proteinGroups.txt (`mq_protein_groups_file`,
+# `--mq_protein_groups`).  case["mq"]: None (falsy argument) | "unreadable" (a path without a file) |
+# {"header": [cell…], "rows": [[cell…]…]} (the table as csv.reader yields it; cells without tab / quote / line break)
+# ------------------------------------------------------------------------------------------------
+def mq_table_text(table):
+    return "".join("\t".join(r) + "\n" for r in [table["header"]] + table["rows"])
+
+
+def mq_file_argument(case, directory):
+    """the value to pass as `mq_protein_groups_file` for case["mq"]; a table is written to <directory>/proteinGroups.txt"""
+    import os
+
+    mq = case.get("mq")
+    if mq is None:
+        return case.get("mq_falsy")          # None or ""
+    path = os.path.join(directory, "proteinGroups.txt")
+    if mq != "unreadable":
+        with open(path, "w", newline="", encoding="utf-8") as f:
+            f.write(mq_table_text(mq))
+    return path
+
+
+def run_impl_mq(case):
+    """`run_impl` (above) with case["mq"] handed to the real `get_protein_group_results` as `mq_protein_groups_file` —
+    harness/pipeline.py calls the function through the module attribute without that argument, so it is added on the
+    way in.  No shipped method file asks for a MaxQuant-native grouping: whatever file is passed, the groups of the run
+    are a statement about the peptide list (props.C03 / Props/C03.lean `grouping_independent_of_file`), and the model
+    request stays the one of the case without a file."""
+    import shutil
+    import tempfile
+
+    from picked_group_fdr import picked_group_fdr as pgf
+
+    if "mq" not in case:
+        return run_impl(case)
+    d = tempfile.mkdtemp(prefix="c03mq")
+    arg = mq_file_argument(case, d)
+    orig = pgf.get_protein_group_results
+
+    def with_file(*a, **k):
+        if len(a) < 2 and "mq_protein_groups_file" not in k:
+            k["mq_protein_groups_file"] = arg
+        return orig(*a, **k)
+
+    pgf.get_protein_group_results = with_file
+    try:
+        out = run_impl(case)
+    finally:
+        pgf.get_protein_group_results = orig
+        shutil.rmtree(d, ignore_errors=True)
+    return out
+
+
+# ------------------------------------------------------------------------------------------------
+# C19, last sentence, on a whole command line: "gene-level reporting uses the gene names as identifiers unless most
+# records lack one, in which case pseudo-genes from shared peptides are used instead" — for EVERY method of the run
+# ------------------------------------------------------------------------------------------------
+def gene_level_decision(case):
+    """(falls back to pseudo-genes, records with a gene name, records) decided from the FASTA text of the case alone.
+    The rule is the one of protein_annotation.get_protein_annotations: the annotation table has one entry per identifier
+    (first word of the header, or its accession with --fasta_use_uniprot_id; first record of a file wins, a later file
+    replaces; without --fasta_contains_decoys every record also enters as `REV__` + header), and
+    `has_gene_names(table, min_ratio_with_genes=0.5)` (protein_annotation.py, `counts / len(table) > 0.5`) must hold for
+    gene names to be used: STRICTLY more than half of the entries carry a non-empty GN= field; at exactly one half, or
+    below, the run falls back.  (None, 0, 0): not a gene-level run, or no --fasta (no annotations, no fall-back)."""
+    f = case["flags"]
+    if not f.get("gene_level") or not case.get("fasta"):
+        return None, 0, 0
+    table = {}
+    for lines in case["fasta"]:
+        one = {}
+        for line in lines:
+            line = line.rstrip()
+            if not line.startswith(">"):
+                continue
+            for h in ([line[1:]] if f.get("contains_decoys") else [line[1:], "REV__" + line[1:]]):
+                word = h.split(" ", 1)[0]
+                key = word.split("|")[1] if (f.get("use_uniprot") and "|" in word) else word
+                gene = h.split(" GN=", 1)[1].split(" ", 1)[0] if " GN=" in h else None
+                one.setdefault(key, gene)
+        table.update(one)
+    if not table:
+        return None, 0, 0
+    with_gene = sum(1 for g in table.values() if g)
+    return not (2 * with_gene > len(table)), with_gene, len(table)
+
+
+def gene_names_of(case):
+    """the identifiers of a gene-level run that does NOT fall back: the GN= value of every record that has one (and its
+    REV__ form: generated decoys are named after the target's identifier; a file's own decoy records carry the gene too)"""
+    out = set()
+    for lines in case["fasta"]:
+        for line in lines:
+            line = line.rstrip()
+            if line.startswith(">") and " GN=" in line:
+                g = line.split(" GN=", 1)[1].split(" ", 1)[0]
+                if g:
+                    out.update((g, "REV__" + g))
+    return out
+
+
+def oracle_c19_gene_level(case, impl_out):
+    """every method of a --gene_level run: pseudo-genes (the C03 pseudo-gene statement on the method's ingested peptide
+    list, for the groups handed to its first competition) when the FASTA makes the run fall back — whatever grouping the
+    method file names —, gene names as identifiers of every method that maps its peptides through the digest otherwise"""
+    from props import C03
+
+    falls_back, with_gene, n = gene_level_decision(case)
+    if falls_back is None or not isinstance(impl_out, dict) or impl_out.get("err") is not None:
+        return None
+    sm = cm.shipped()
+    genes = None if falls_back else gene_names_of(case)
+    for name, m in zip(case["methods"], impl_out.get("methods") or []):
+        if not m or not m.get("passes"):
+            continue  # no input file for this method (skipped with a warning) / nothing competed
+        groups = m["passes"][0]["comp_groups"]
+        if falls_back:
+            why = C03.check_groups({"pil": m["pil"]}, "pseudo_gene", groups)
+            if why:
+                return ("--gene_level on a FASTA where %d of %d records carry a gene name (not more than half: pseudo-genes from "
+                        "shared peptides are to be used), method %s (grouping %r in its file): the groups handed to its first "
+                        "competition are %r — %s" % (with_gene, n, name, sm[name].get("grouping"), groups, why))
+        elif cm.remaps(sm[name]):
+            for g in groups:
+                for p in g:
+                    if p not in genes:
+                        return ("--gene_level on a FASTA where %d of %d records carry a gene name (more than half: gene names are "
+                                "the identifiers), method %s: protein %r of group %r is not a gene name of a FASTA record (e.g. %r)" % (
+                                    with_gene, n, name, p, g, sorted(genes)[:4]))
+    return None
+
+
+def gen_cli_case_gene_level(rng, tier, want_no_grouping=0.6, tries=40):
+    """gen_cli_case_for_flags; when the drawn command line is a gene-level run that falls back to pseudo-genes and none of
+    its methods names the grouping `no`, it is redrawn (with probability `want_no_grouping`) until one does: the fall-back
+    must reach the methods whose own grouping is not subset-based as well"""
+    case = gen_cli_case_for_flags(rng, tier)
+    if rng.random() >= want_no_grouping:
+        return case
+    sm = cm.shipped()
+    for _ in range(tries):
+        if not gene_level_decision(case)[0] or any(sm[n].get("grouping") not in ("subset", "rescued_subset") for n in case["methods"]):
+            return case
+        case = gen_cli_case_for_flags(rng, tier)
+    return case
